@@ -44,6 +44,17 @@ pub trait MemTable: Send + Sync {
 pub(crate) struct SkipListMemTable {
     /// The actual skip list backing the memtable.
     store: Arc<ConcurrentSkipList<InternalKey, Vec<u8>>>,
+
+    /**
+    Excludes searches of the skip list while a node is being inserted.
+
+    The skip list links a new node into its tower one level at a time, starting at the top level
+    (and may grow the head's tower first). A search that runs in between walks onto the new node
+    at a high level, finds no successors on the levels below because they are not linked yet, and
+    concludes that the list ends there i.e. every entry behind the new node looks absent. Readers
+    share this lock and the single writer holds it exclusively for the duration of an insertion.
+    */
+    insertion_lock: Arc<parking_lot::RwLock<()>>,
 }
 
 /// Public methods
@@ -52,6 +63,7 @@ impl SkipListMemTable {
     pub fn new() -> Self {
         Self {
             store: Arc::new(ConcurrentSkipList::new(None)),
+            insertion_lock: Arc::new(parking_lot::RwLock::new(())),
         }
     }
 }
@@ -62,6 +74,8 @@ impl MemTable for SkipListMemTable {
     }
 
     fn insert(&self, key: InternalKey, value: Vec<u8>) {
+        let _insertion_guard = self.insertion_lock.write();
+
         /*
         SAFETY:
         RainDB enforces that there is only a single writer adding to the memtable at a time.
@@ -73,16 +87,14 @@ impl MemTable for SkipListMemTable {
         // The key has a sequence number that serves as an upper bound on the recency of values that
         // should be considered valid to return i.e. keys with a sequence number higher than
         // provided are not valid.
-        let mut iter = self.iter();
-        iter.seek(key).unwrap();
-
-        if iter.is_valid() {
-            // We only need to check the user key since the call to `seek()` above should have
-            // skipped sequence numbers more recent than we want
-            let (current_key, _current_val) = iter.current().unwrap();
+        let _search_guard = self.insertion_lock.read();
+        if let Some(node) = self.store.find_greater_or_equal_node(key) {
+            // We only need to check the user key since the search above should have skipped
+            // sequence numbers more recent than we want
+            let (current_key, current_val) = node.get_entry();
             if current_key.get_user_key() == key.get_user_key() {
                 match current_key.get_operation() {
-                    crate::Operation::Put => return Ok(self.store.get(current_key)),
+                    crate::Operation::Put => return Ok(Some(current_val)),
                     crate::Operation::Delete => return Ok(None),
                 }
             }
@@ -92,8 +104,10 @@ impl MemTable for SkipListMemTable {
     }
 
     fn iter(&self) -> Box<dyn RainDbIterator<Key = InternalKey, Error = RainDBError>> {
+        let _search_guard = self.insertion_lock.read();
         Box::new(SkipListMemTableIter {
             store: Arc::clone(&self.store),
+            insertion_lock: Arc::clone(&self.insertion_lock),
             current_entry: self.store.first_node().map(|node| {
                 let (key, value) = node.get_entry();
                 (key.clone(), value.clone())
@@ -124,6 +138,9 @@ struct SkipListMemTableIter {
     /// A reference to the skip list backing the memtable.
     store: Arc<ConcurrentSkipList<InternalKey, Vec<u8>>>,
 
+    /// Shared with the memtable: held for reading around every search of the skip list.
+    insertion_lock: Arc<parking_lot::RwLock<()>>,
+
     /// The key-value pair that was found last.
     current_entry: Option<(InternalKey, Vec<u8>)>,
 }
@@ -146,6 +163,8 @@ impl RainDbIterator for SkipListMemTableIter {
     }
 
     fn seek(&mut self, target: &Self::Key) -> Result<(), Self::Error> {
+        let insertion_lock = Arc::clone(&self.insertion_lock);
+        let _search_guard = insertion_lock.read();
         self.current_entry = self
             .store
             .find_greater_or_equal_node(target)
@@ -155,6 +174,8 @@ impl RainDbIterator for SkipListMemTableIter {
     }
 
     fn seek_to_first(&mut self) -> Result<(), Self::Error> {
+        let insertion_lock = Arc::clone(&self.insertion_lock);
+        let _search_guard = insertion_lock.read();
         self.current_entry = self
             .store
             .first_node()
@@ -164,6 +185,8 @@ impl RainDbIterator for SkipListMemTableIter {
     }
 
     fn seek_to_last(&mut self) -> Result<(), Self::Error> {
+        let insertion_lock = Arc::clone(&self.insertion_lock);
+        let _search_guard = insertion_lock.read();
         self.current_entry = self
             .store
             .last_node()
@@ -176,6 +199,9 @@ impl RainDbIterator for SkipListMemTableIter {
         if !self.is_valid() {
             return None;
         }
+
+        let insertion_lock = Arc::clone(&self.insertion_lock);
+        let _search_guard = insertion_lock.read();
 
         self.current_entry = self.current_entry.take().and_then(|(key, _value)| {
             self.store
@@ -199,6 +225,9 @@ impl RainDbIterator for SkipListMemTableIter {
         if !self.is_valid() {
             return None;
         }
+
+        let insertion_lock = Arc::clone(&self.insertion_lock);
+        let _search_guard = insertion_lock.read();
 
         let (curr_key, _) = self.current_entry.take().unwrap();
         self.current_entry = self
